@@ -12,6 +12,7 @@ CONSTANTS
     TickSteps = {1}
     NProofs = 2
     TsChoices = {0, 1, 3, 5, 6}
+    FarChoices = {"near"}
     NonceIds = {1, 2}
     ShareNonces = TRUE
     KidChoices = {"k1"}
